@@ -133,6 +133,9 @@ func (vt *Model) decset(params [][]int) {
 			vt.mode.altScroll = true
 		case 2004:
 			vt.mode.paste = true
+		case 2027:
+			// Grapheme clustering: always on, the parser measures whole
+			// grapheme clusters. Nothing to set
 		}
 	}
 }
@@ -179,6 +182,8 @@ func (vt *Model) decrst(params [][]int) {
 			vt.decrc()
 		case 2004:
 			vt.mode.paste = false
+		case 2027:
+			// Grapheme clustering can't be turned off
 		}
 	}
 }
@@ -292,6 +297,10 @@ func (vt *Model) decrqm(pd int) {
 		case false:
 			ps = 2
 		}
+	case 2027:
+		// Printed text is always measured per grapheme cluster, so
+		// applications must measure the same way
+		ps = 1
 	}
 	fmt.Fprintf(vt.pty, "\x1B[?%d;%d$y", pd, ps)
 }
